@@ -10,6 +10,7 @@ import Driver.OpsFnGen3
 import Driver.OpsFnGen4
 import Driver.OpsFnGen5
 import Driver.OpsFnGen6
+import Driver.OpsFnGen7
 import Driver.OpsC03
 import Driver.OpsSym
 import Driver.OpsBot
@@ -43,6 +44,7 @@ def handlers : List Handler := [
   handleFnGen4,
   handleFnGen5,
   handleFnGen6,
+  handleFnGen7,
   handleC03,
   handleSym,
   handleEval,
